@@ -42,6 +42,10 @@ type Profile struct {
 	PJump      float64 // tick jumps far
 	HostileIds bool
 	Crons      []string
+	// PFine: probability that a run uses the millisecond time scale
+	PFine float64
+	// HotP: probability that a promise operation addresses the run's hot id
+	HotP float64
 	// NoQuiesce: skip the final convergence phase
 	NoQuiesce bool
 	// Timeouts (relative, ms) to choose from
@@ -61,6 +65,11 @@ type Gen struct {
 	crashes bool
 	nReq    int
 	recent  []*ReqSpec
+	hot     string
+	// per-run scheduling mood: relative eagerness of clients, the clock, workers and deliveries
+	wReq, wTick int
+	wWork, wDel map[string]int
+	queue       []Step
 }
 
 // DrawConfig draws the swarm configuration of a run.
@@ -91,6 +100,11 @@ func (p *Profile) DrawConfig(r *rand.Rand) Config {
 		Url:             "http://sim.test:8001",
 		Epoch:           1_700_000_000_000 + int64(r.Intn(100000))*977,
 	}
+	if r.Float64() < p.PFine {
+		cfg.Fine = true
+		cfg.SignalTimeoutMs = pick(r, []int64{3, 10, 40, 1000})
+		cfg.EnqueueDelayMs = pick(r, []int64{2, 10, 50, 1000})
+	}
 	if r.Float64() < p.PLazyOnly {
 		cfg.NoBackground = true
 	}
@@ -109,6 +123,13 @@ func NewGen(seed int64, p *Profile, s *Sim) *Gen {
 func (g *Gen) Begin() {
 	g.faults = g.R.Float64() < g.P.PFaultRun
 	g.crashes = g.R.Float64() < g.P.PCrashRun
+	g.hot = pick(g.R, g.P.Promises)
+	mood := []int{2, 8, 30, 30, 30, 90}
+	g.wReq, g.wTick = pick(g.R, mood), pick(g.R, mood)
+	g.wWork, g.wDel = map[string]int{}, map[string]int{}
+	for _, sub := range []string{"store", "router", "sender"} {
+		g.wWork[sub], g.wDel[sub] = pick(g.R, mood), pick(g.R, mood)
+	}
 }
 
 func (g *Gen) val() *string {
@@ -142,9 +163,26 @@ var recvs = []string{
 	`{"type":"poll","data":{"group":"g3","id":"w3"}}`, `{"type":"http","data":{"url":"http://h.test/z"}}`,
 }
 
-func (g *Gen) promiseId() string { return pick(g.R, g.P.Promises) }
+func (g *Gen) promiseId() string {
+	if g.R.Float64() < g.P.HotP {
+		return g.hot
+	}
+	return pick(g.R, g.P.Promises)
+}
 
-func (g *Gen) timeoutRel() int64 { return pick(g.R, g.P.TimeoutRel) }
+func (g *Gen) timeoutRel() int64 {
+	if g.S.Cfg.Fine {
+		return pick(g.R, []int64{-1, 0, 1, 2, 3, 5, 8, 12, 20, 40, 100})
+	}
+	return pick(g.R, g.P.TimeoutRel)
+}
+
+func (g *Gen) ttl() int64 {
+	if g.S.Cfg.Fine {
+		return pick(g.R, []int64{0, 1, 2, 3, 5, 10, 30})
+	}
+	return pick(g.R, g.P.Ttls)
+}
 
 func (g *Gen) createSpec(kind string) *ReqSpec {
 	sp := &ReqSpec{Kind: kind, Id: g.promiseId(), IKey: g.key(), Strict: g.R.Intn(4) == 0, Data: g.val(), TimeoutRel: g.timeoutRel()}
@@ -166,7 +204,7 @@ func (g *Gen) createSpec(kind string) *ReqSpec {
 	}
 	if kind == "CreatePromiseAndTask" {
 		sp.Process = pick(g.R, g.P.Procs)
-		sp.Ttl = pick(g.R, g.P.Ttls)
+		sp.Ttl = g.ttl()
 	}
 	return sp
 }
@@ -242,13 +280,13 @@ func (g *Gen) reqSpec() *ReqSpec {
 		}
 		return sp
 	case "AcquireLock":
-		return &ReqSpec{Kind: kind, Resource: pick(g.R, g.P.Resources), Execution: pick(g.R, g.P.Execs), Process: pick(g.R, g.P.Procs), Ttl: pick(g.R, g.P.Ttls)}
+		return &ReqSpec{Kind: kind, Resource: pick(g.R, g.P.Resources), Execution: pick(g.R, g.P.Execs), Process: pick(g.R, g.P.Procs), Ttl: g.ttl()}
 	case "ReleaseLock":
 		return &ReqSpec{Kind: kind, Resource: pick(g.R, g.P.Resources), Execution: pick(g.R, g.P.Execs)}
 	case "HeartbeatLocks", "HeartbeatTasks":
 		return &ReqSpec{Kind: kind, Process: pick(g.R, g.P.Procs)}
 	case "ClaimTask":
-		return &ReqSpec{Kind: kind, Id: pick(g.R, g.taskIds()), CounterFrom: pick(g.R, []string{"snap", "snap", "msg"}), Counter: pick(g.R, []int{0, 0, 0, 0, -1, 1}), Process: pick(g.R, g.P.Procs), Ttl: pick(g.R, g.P.Ttls)}
+		return &ReqSpec{Kind: kind, Id: pick(g.R, g.taskIds()), CounterFrom: pick(g.R, []string{"snap", "snap", "msg"}), Counter: pick(g.R, []int{0, 0, 0, 0, -1, 1}), Process: pick(g.R, g.P.Procs), Ttl: g.ttl()}
 	case "CompleteTask":
 		return &ReqSpec{Kind: kind, Id: pick(g.R, g.taskIds()), CounterFrom: "snap", Counter: pick(g.R, []int{0, 0, 0, 0, -1, 1})}
 	case "SearchPromises":
@@ -322,6 +360,9 @@ func (g *Gen) dt() int64 {
 			}
 		}
 	}
+	if g.S.Cfg.Fine {
+		return pick(r, []int64{0, 0, 1, 1, 1, 2, 3, 5, 10})
+	}
 	if r.Float64() < g.P.PJump {
 		return pick(r, []int64{60_000, 600_000, 3_600_000, 86_400_000})
 	}
@@ -354,6 +395,11 @@ func (g *Gen) Next() Step {
 		}
 		return st
 	}
+	if len(g.queue) > 0 {
+		st := g.queue[0]
+		g.queue = g.queue[1:]
+		return st
+	}
 	type cand struct {
 		w  int
 		mk func() Step
@@ -366,9 +412,9 @@ func (g *Gen) Next() Step {
 		}
 	}
 	if g.nReq < g.P.MaxReqs {
-		w := 30
-		if inflight > 6 {
-			w = 5
+		w := g.wReq
+		if inflight > 8 {
+			w = 1 + w/6
 		}
 		cs = append(cs, cand{w, func() Step {
 			g.nReq++
@@ -387,12 +433,36 @@ func (g *Gen) Next() Step {
 			return Step{Op: "req", Client: r.Intn(3), Req: sp}
 		}})
 	}
-	cs = append(cs, cand{25, func() Step { return Step{Op: "tick", Dt: g.dt()} }})
+	// a burst of concurrent requests on the hot promise
+	if g.nReq+4 < g.P.MaxReqs && g.P.HotP > 0 {
+		cs = append(cs, cand{1 + g.wReq/3, func() Step {
+			n := 2 + r.Intn(4)
+			saved := g.P.HotP
+			g.P.HotP = 1
+			for i := 0; i < n; i++ {
+				var sp *ReqSpec
+				for try := 0; try < 20; try++ {
+					sp = g.reqSpec()
+					if sp.Id == g.hot || sp.PromiseId == g.hot {
+						break
+					}
+				}
+				g.nReq++
+				g.queue = append(g.queue, Step{Op: "req", Client: r.Intn(3), Req: sp})
+			}
+			g.P.HotP = saved
+			s.Probes["burst"]++
+			st := g.queue[0]
+			g.queue = g.queue[1:]
+			return st
+		}})
+	}
+	cs = append(cs, cand{g.wTick, func() Step { return Step{Op: "tick", Dt: g.dt()} }})
 	for _, sub := range []string{"store", "router", "sender"} {
 		sub := sub
 		sh := s.shellByName(sub)
 		if len(sh.q) > 0 && (len(sh.parked) == 0 || sub == "sender") {
-			cs = append(cs, cand{30, func() Step {
+			cs = append(cs, cand{g.wWork[sub], func() Step {
 				n := 1 + r.Intn(len(sh.q))
 				if r.Intn(3) == 0 {
 					n = len(sh.q)
@@ -426,7 +496,7 @@ func (g *Gen) Next() Step {
 			}})
 		}
 		if len(sh.parked) > 0 {
-			cs = append(cs, cand{30, func() Step {
+			cs = append(cs, cand{g.wDel[sub], func() Step {
 				k := 1 + r.Intn(len(sh.parked))
 				if r.Intn(2) == 0 {
 					k = 0
